@@ -191,6 +191,14 @@ inductive Reachable (P : Prog) : St → Prop
 /-! ### The executable step (used by the driver); `Theorems.step_sound/step_complete` tie it
 to `Trans`. -/
 
+/-- `<-u.done` has returned: append the edges of `u` that are not yet enqueued, in the order
+`new` (must be a duplicate-free enumeration of exactly those edges). -/
+def recvStep (s : St) (p : Pid) (w : List Pid) (i : Nat) (u : Pid) (new : List Pid) : Option (Label × St) :=
+  if new.Nodup ∧ (∀ v ∈ new, v ∈ (s.edges u).filter fun v => !(w.contains v)) ∧
+      (∀ v ∈ (s.edges u).filter fun v => !(w.contains v), v ∈ new) then
+    some (.waitRecv u new, { s with phase := upd s.phase p (.waiting (w ++ new) (i + 1) false) })
+  else none
+
 /-- One atomic step of process `p`. `hint`: the order in which `wait` appends the new edges
 (`none`: the order of insertion). `none` result = not enabled. -/
 def step (P : Prog) (s : St) (p : Pid) (hint : Option (List Pid) := none) : Option (Label × St) :=
@@ -229,13 +237,7 @@ def step (P : Prog) (s : St) (p : Pid) (hint : Option (List Pid) := none) : Opti
     | none => none
     | some u =>
       if s.done u = true then
-        let dflt := (s.edges u).filter fun v => !(w.contains v)
-        let new := match hint with
-          | none => dflt
-          | some h => h
-        if new.Nodup ∧ (∀ v ∈ new, v ∈ dflt) ∧ (∀ v ∈ dflt, v ∈ new) then
-          some (.waitRecv u new, { s with phase := upd s.phase p (.waiting (w ++ new) (i + 1) false) })
-        else none
+        recvStep s p w i u (hint.getD ((s.edges u).filter fun v => !(w.contains v)))
       else none
   | .finished => none
 
